@@ -157,9 +157,9 @@ PROPS["C18"] = {
     "assumptions": [],
 }
 PROPS["C19"] = {
-    "level_text": "Design: MC_Planner model-checks the frontier machine of Planner.tla (steps bounded by a constant per iteration, |alive| <= |modes|^2). Implementation: Trace_Planner validates the hook's per-iteration events against that machine with 6 modes: every live plan steps exactly once, <= 1 switch call per plan, <= 5 spawned per call, no duplicate (start,current) pair after pruning, <= 36 alive, cumulative candidate steps <= 216 (it+1) + 6; the summed planner work of one encode_data() call (all optimize() invocations) obeys the same bound; wall time per call <= 10 s and a 20 s watchdog; a step budget in the hook stops exponential planners.",
+    "level_text": "Design: MC_Planner model-checks the frontier machine of Planner.tla for 2 modes (steps bounded by a constant per iteration, |alive| <= |modes|^2), and Apalache discharges the inductive invariant `steps <= 216 it + 6 /\\ alive subset of Modes x Modes` for 6 modes and ANY number of iterations (PlannerApa.tla: Init => IndInv, IndInv /\\ Next => IndInv'). Implementation: Trace_Planner validates the hook's per-iteration events against that machine with 6 modes: every live plan steps exactly once, <= 1 switch call per plan, <= 5 spawned per call, no duplicate (start,current) pair after pruning, <= 36 alive, cumulative candidate steps <= 216 (it+1) + 6; the summed planner work of one encode_data() call (all optimize() invocations) obeys the same bound; wall time per call <= 10 s and a 20 s watchdog; a step budget in the hook stops exponential planners.",
     "level_note": "Trusts: the hook counts (cfg datamatrix_verif) are taken inside optimize() at the pruning point.",
-    "mc": ["MC_Planner"],
+    "mc": ["MC_Planner", "PlannerInductive"],
     "jobs": [{"family": "plan", "spec": "Trace_Planner", "focus": "C19", "coverage": True}],
     "rule": "one case = one optimize() call on an adversarial input: 20 alternation patterns at lengths 1..3000 (thorough ..3200) x {default, smallest, largest singleton, all} lists x mode sets, random strings over the class alphabet and random runs; recorded in chunks of 150 iterations; non-trivial = every chunk; distinct = (case, chunk)",
     "assumptions": ["non-termination is observed as watchdog expiry / step budget, not proved impossible"],
@@ -205,6 +205,7 @@ MC = {
     "MC_Codec": {"spec": "MC_Codec", "must_take": ["Write", "StartRead", "Read"], "timeout": 1800},
     "MC_Codec_thorough": {"spec": "MC_Codec", "cfg": "MC_Codec_thorough.cfg", "must_take": ["Write", "StartRead", "Read"], "timeout": 3400},
     "MC_Planner": {"spec": "MC_Planner", "must_take": ["PIterate"], "timeout": 600},
+    "PlannerInductive": {"apalache": True, "spec": "PlannerApa", "init": "PInit", "indinit": "IndInit", "next": "PNext", "inv": "IndInv", "timeout": 600},
     "MC_Reader": {"spec": "MC_Reader", "must_take": ["Step"], "timeout": 900},
     "MC_SymbolList": {"spec": "MC_SymbolList", "must_take": ["Next"], "timeout": 1200},
     "MC_Placement": {"spec": "MC_Placement", "must_take": ["Statement"], "timeout": 900},
